@@ -140,8 +140,27 @@ def _impl(cases, shard=150):
     return res
 
 
+def generate_large(r, n):
+    """high-ratio bodies (one 4096-byte read inflates to megabytes): implementation-side
+    property predicate only (too large for the in-Coq model run)"""
+    cases = []
+    for i in range(n):
+        enc = ['gzip', 'zlib', 'raw'][i % 3]
+        units = [bytes(r.randrange(256) for _ in range(r.randrange(8, 30))).hex() for _ in range(r.randrange(10, 40))]
+        g = {'enc': enc, 'units': units, 'repeat': r.randrange(2000, 8000), 'level': r.choice([1, 6, 9]),
+             'cuts': [r.randrange(1 << 20) for _ in range(r.randrange(0, 4))], 'block': r.choice([0, 4096, 4096, 4096, 1024]),
+             'cut': r.choice([0, 0, 0, 0, 1, 3, 5])}
+        if not g['cuts'] and not g['block']:
+            g['cuts'] = [r.randrange(1 << 20)]
+        cases.append({'kind': 'KGzip' if enc == 'gzip' else 'KDeflate', 'pieces': [], 'gen': g, 'tag': 'large-' + enc +
+                      ('-truncated' if g['cut'] else ''), 'truncated': bool(g['cut']), 'tables': False})
+    return cases
+
+
 def _property_on_impl(case, res):
     """the property itself, on the implementation's answers"""
+    if 'gen' in case and not case.get('truncated') and res['oneshot'] != res.get('expect'):
+        return 'wrong-content'
     if res['stream'] != res['oneshot']:
         return 'split-dependence'
     if res['glue'] != res['stream']:
@@ -162,7 +181,7 @@ def _violations(cases, results):
     for c, r in zip(cases, results):
         why = _property_on_impl(c, r)
         if why:
-            cc = {k: c[k] for k in ('kind', 'pieces', 'tag', 'truncated')}
+            cc = {k: c[k] for k in ('kind', 'pieces', 'tag', 'truncated', 'gen') if k in c}
             out.append({'why': why, 'case': cc, 'impl': {k: r[k] for k in ('stream', 'oneshot', 'glue')}})
     return out
 
@@ -214,9 +233,14 @@ def correspondence(ctx):
         engaged = (c['kind'] == 'KGzip' and body.startswith('1f')) or (c['kind'] == 'KDeflate' and len(body) >= 4)
         if engaged and len(c['pieces']) > 1:
             nontriv.add((c['kind'], tuple(c['pieces'])))
-    ctx.c19_cases = (cases, results)
+    large = generate_large(r, 12 if not ctx.thorough else 150)
+    large_res = _impl(large, shard=2)
+    large_viol = _violations(large, large_res)
+    for c in large:
+        tags[c['tag']] = tags.get(c['tag'], 0) + 1
     return {
-        'evaluations': len(cases),
+        'evaluations': len(cases) + len(large),
+        'large_bodies_checked_on_impl_only': len(large),
         'distinct_nontrivial': len(nontriv),
         'rule': 'generated (kind, body, split) triples: gzip/zlib/raw/identity/garbage/trailing/corrupt/header-variant bodies '
                 'and their truncations, each under whole/single-byte/1-first/2-first/random splits, plus every split of 5 short bodies; '
@@ -226,7 +250,7 @@ def correspondence(ctx):
         'oracle_samples': {'zlib_machine_abstraction_checked': len(cases), 'failed': len(machine_bad)},
         'errors_from_impl': sum(1 for x in results if x['stream'] is None),
         'disagreements': disagreements,
-        'impl_violations': _violations(cases, results),
+        'impl_violations': _violations(cases, results) + large_viol,
     }
 
 
@@ -238,7 +262,8 @@ def search(ctx, disagreements):
     for c in cases:
         c['tables'] = False
     results = _impl(cases)
-    return _violations(cases, results)
+    large = generate_large(r, 60)
+    return _violations(cases, results) + _violations(large, _impl(large, shard=3))
 
 
 def replay(ctx, data):
